@@ -299,3 +299,180 @@ def resolve_stores(p: State, idx: int, t: Term, base: Term = SELF, depth: int = 
             return resolve_stores(p, i, v, base, d - 1)
         return tuple(sub(y, d) for y in x)
     return sub(t, depth)
+
+
+def events_inlined(repo: Repo, ci: ClassInfo, p: State, depth: int = 2, _seen=()):
+    """Events of a path with calls to methods of the same object (``self.helper(args)``)
+    expanded: the helper's events, over all its paths, with its parameters bound to the actual
+    arguments (so stores made by a helper appear in the caller's terms, e.g.
+    ``setattr(layer, attr, value)`` with attr bound to a constant becomes a store of that
+    attribute).  Each expanded event carries the caller's context followed by its own."""
+    for e in p.events:
+        yield e
+        if e.kind != 'call' or depth <= 0:
+            continue
+        mc = method_call(e.data[0])
+        if mc is None or mc[0] != SELF:
+            continue
+        m = repo.find_method(ci, mc[1])
+        if m is None or m.kind not in ('method', 'static') or m.qualname in _seen or \
+                not m.module.name.startswith('plinio.'):
+            continue
+        if m.kind == 'static':
+            bind, formal = {}, m.params
+        else:
+            bind, formal = {m.params[0]: SELF}, m.params[1:]
+        for prm, a in zip(formal, mc[2]):
+            bind[prm] = a
+        for k, a in mc[3]:
+            bind[k] = a
+        for q in paths(repo, m, bind):
+            for e2 in events_inlined(repo, ci, q, depth - 1, _seen + (m.qualname,)):
+                yield Event(e2.kind, e2.data, e2.node, tuple(e.ctx) + tuple(e2.ctx))
+
+
+def prior_assumes(p: State, ev: Event) -> List[Tuple[Term, bool]]:
+    """(atom, polarity) of every branch decision taken on this path before the event (the tests
+    of enclosing ifs AND of earlier if/continue, if/return guards)."""
+    out = []
+    for e in p.events:
+        if e is ev:
+            break
+        if e.kind == 'assume':
+            out.append((e.data[0], e.data[1]))
+    return out
+
+
+def _replace(t, a, b):
+    if t == a:
+        return b
+    if isinstance(t, tuple):
+        return tuple(_replace(x, a, b) for x in t)
+    return t
+
+
+def truth_under(c: Term, assumptions) -> Optional[bool]:
+    """truth of a condition given the atoms a path has assumed (three-valued)"""
+    for a, v in assumptions:
+        if a == c:
+            return v
+    if c[0] == 'un' and c[1] == 'not':
+        v = truth_under(c[2], assumptions)
+        return None if v is None else not v
+    if c[0] == 'bool':
+        vals = [truth_under(x, assumptions) for x in c[2]]
+        if c[1] == 'and':
+            if any(v is False for v in vals):
+                return False
+            return True if all(v is True for v in vals) else None
+        if any(v is True for v in vals):
+            return True
+        return False if all(v is False for v in vals) else None
+    if c[0] == 'const':
+        return bool(c[1])
+    return None
+
+
+def split_ifexp(p: State, max_conds: int = 3) -> List[State]:
+    """Conditional expressions lifted to path splits: ``x = A if c else B`` is analysed like
+    ``if c: x = A else: x = B``.  Every distinct undecided condition of a conditional expression
+    occurring in the path's events / return value (not depending on a loop variable) yields
+    two copies of the path, with the expression replaced by the chosen alternative everywhere
+    and the condition recorded as an assumption.  Copies that contradict an assumption the path
+    already holds are dropped."""
+    conds = []
+    terms = [x for e in p.events for x in e.data if isinstance(x, tuple)]
+    if p.retval is not None:
+        terms.append(p.retval)
+    for t in terms:
+        for x in subterms(t):
+            if x[0] == 'ifexp' and x[1] not in conds and \
+                    not mentions(x[1], lambda y: y[0] == 'elem'):
+                conds.append(x[1])
+    out = [p]
+    for c in conds[:max_conds]:
+        nxt = []
+        for q in out:
+            kv = truth_under(c, q.assumptions)
+            known = [] if kv is None else [kv]
+            for pol in (True, False):
+                if known and known[0] != pol:
+                    continue
+                r = q.fork()
+
+                def pick(t, c=c, pol=pol):
+                    if isinstance(t, tuple):
+                        if t and t[0] == 'ifexp' and t[1] == c:
+                            return pick(t[2] if pol else t[3])
+                        return tuple(pick(x) for x in t)
+                    return t
+                r.events = [Event(e.kind, tuple(pick(x) for x in e.data), e.node, e.ctx)
+                            for e in q.events]
+                r.retval = pick(q.retval) if q.retval is not None else None
+                r.env = {k: pick(v) for k, v in q.env.items()}
+                if not known:
+                    r.assumptions = list(q.assumptions) + [(c, pol)]
+                nxt.append(r)
+        out = nxt
+    return out
+
+
+def paths_split(repo: Repo, fn: FunctionInfo, bind=None) -> List[State]:
+    out: List[State] = []
+    for p in paths(repo, fn, bind):
+        out += split_ifexp(p)
+    return out
+
+
+def inline_globals(repo: Repo, t: Term, depth: int = 2) -> Term:
+    """Calls of small module-level repository functions (one returning path, no loop)
+    replaced by the term they return, with parameters bound to the arguments."""
+    if not isinstance(t, tuple) or depth <= 0:
+        return t
+    if t and t[0] == 'call':
+        c = callee(t)
+        f = repo.functions.get(c) if c else None
+        if f is not None and f.cls is None and f.module.name.startswith('plinio.'):
+            bind = {}
+            for prm, a in zip(f.params, t[2]):
+                bind[prm] = inline_globals(repo, a, depth)
+            for k, a in t[3]:
+                bind[k] = inline_globals(repo, a, depth)
+            try:
+                ps = [q for q in paths(repo, f, bind) if q.status == 'return']
+            except AnalysisError:
+                ps = []
+            if len(ps) == 1 and ps[0].retval is not None and \
+                    not any(e.kind in ('loop0', 'loopend', 'setattr', 'setitem') for e in ps[0].events):
+                return inline_globals(repo, ps[0].retval, depth - 1)
+    return tuple(inline_globals(repo, x, depth) for x in t)
+
+
+# tensor operations that exist both as ``torch.f(x, ...)`` and as ``x.f(...)``
+_TORCH_DUAL = {'rsqrt', 'sqrt', 'abs', 'exp', 'log', 'neg', 'reciprocal', 'square', 'mul', 'add',
+               'sub', 'div', 'sum', 'mean', 'amax', 'amin', 'argmax', 'argmin', 'softmax',
+               'flatten', 'reshape', 'clamp', 'clip', 'round', 'floor', 'ceil', 'flip',
+               'transpose', 't', 'matmul', 'mm', 'mv', 'pow', 'sigmoid', 'tanh', 'relu'}
+
+
+def canon_torch(t):
+    """One spelling for operations torch offers twice: ``x.f(a)`` -> ``torch.f(x, a)`` for the
+    dual tensor operations, ``len(x.shape)`` / ``x.ndim`` / ``x.ndimension()`` -> ``x.dim()``,
+    ``x.size()`` -> ``x.shape``.  Purely syntactic, value-preserving."""
+    if not isinstance(t, tuple):
+        return t
+    t = tuple(canon_torch(x) for x in t)
+    if t and t[0] == 'call':
+        mc = method_call(t)
+        if mc and mc[1] in _TORCH_DUAL and mc[0][0] != 'global':
+            return ('call', ('global', 'torch.' + mc[1]), (mc[0],) + tuple(mc[2]), t[3])
+        if mc and mc[1] in ('ndimension',) and not mc[2]:
+            return ('call', ('attr', mc[0], 'dim'), (), ())
+        if is_call(t, 'builtins.len') and len(t[2]) == 1 and t[2][0][0] == 'attr' and \
+                t[2][0][2] == 'shape':
+            return ('call', ('attr', t[2][0][1], 'dim'), (), ())
+        if mc and mc[1] == 'size' and not mc[2] and not t[3]:
+            return ('attr', mc[0], 'shape')
+    if t and t[0] == 'attr' and t[2] == 'ndim':
+        return ('call', ('attr', t[1], 'dim'), (), ())
+    return t
